@@ -1,0 +1,115 @@
+/*
+ * Verification hooks (guard: OPENSMT_VERIF_HOOKS). Everything in this file is inert unless the code is compiled with
+ * -DOPENSMT_VERIF_HOOKS *and* the environment variable OPENSMT_VERIF_TRACE names a file; then the solver appends
+ * one record per line to that file (tab separated) describing clauses and formulas it handles.
+ */
+#ifndef OPENSMT_VERIFHOOKS_H
+#define OPENSMT_VERIFHOOKS_H
+
+#ifdef OPENSMT_VERIF_HOOKS
+
+#include <logics/Logic.h>
+#include <minisat/core/SolverTypes.h>
+
+#include <atomic>
+#include <cstdio>
+#include <cstdlib>
+#include <string>
+#include <unordered_set>
+#include <vector>
+
+namespace opensmt::verif {
+
+struct Tracer {
+    FILE * f = nullptr;
+    std::unordered_set<uint32_t> seenTerms;
+    std::unordered_set<std::string> seenSyms;
+    bool derivedScope = false; // clauses added inside SatELite elimination are derived, not input
+    Tracer() {
+        char const * p = std::getenv("OPENSMT_VERIF_TRACE");
+        if (p and *p) { f = std::fopen(p, "a"); }
+    }
+    ~Tracer() {
+        if (f) { std::fclose(f); }
+    }
+    static Tracer & get() {
+        static Tracer t;
+        return t;
+    }
+};
+
+inline bool on() {
+    return Tracer::get().f != nullptr;
+}
+
+inline void raw(std::string const & s) {
+    Tracer & t = Tracer::get();
+    if (not t.f) { return; }
+    std::fputs(s.c_str(), t.f);
+    std::fputc('\n', t.f);
+    std::fflush(t.f);
+}
+
+// Emit "S <name> <(argsorts)> <sort>" once for every solver-introduced symbol (name starting with '.') in tr
+inline void auxDecls(Logic const & logic, PTRef root) {
+    Tracer & t = Tracer::get();
+    std::vector<PTRef> todo{root};
+    while (not todo.empty()) {
+        PTRef tr = todo.back();
+        todo.pop_back();
+        if (not t.seenTerms.insert(tr.x).second) { continue; }
+        Pterm const & pt = logic.getPterm(tr);
+        char const * name = logic.getSymName(tr);
+        if (name and name[0] == '.') {
+            std::string n(name);
+            if (t.seenSyms.insert(n).second) {
+                Symbol const & sym = logic.getSym(pt.symb());
+                std::string rec = "S\t" + n + "\t(";
+                for (unsigned i = 0; i < sym.nargs(); ++i) {
+                    rec += (i ? " " : "") + logic.sortToString(sym[i]);
+                }
+                rec += ")\t" + logic.sortToString(sym.rsort());
+                raw(rec);
+            }
+        }
+        for (int i = 0; i < pt.size(); ++i) {
+            todo.push_back(pt[i]);
+        }
+    }
+}
+
+inline std::string term(Logic const & logic, PTRef tr) {
+    auxDecls(logic, tr);
+    return logic.termToSMT2String(tr);
+}
+
+inline std::string lits(vec<Lit> const & c) {
+    std::string s;
+    for (int i = 0; i < c.size(); ++i) {
+        if (i) { s += ' '; }
+        s += std::to_string(sign(c[i]) ? -(var(c[i]) + 1) : (var(c[i]) + 1));
+    }
+    return s;
+}
+
+inline void clause(char const * kind, vec<Lit> const & c) {
+    if (not on()) { return; }
+    raw(std::string(kind) + "\t" + lits(c));
+}
+
+struct DerivedScope {
+    bool prev;
+    DerivedScope() : prev(Tracer::get().derivedScope) { Tracer::get().derivedScope = true; }
+    ~DerivedScope() { Tracer::get().derivedScope = prev; }
+};
+
+// Counter of arbitrary-precision allocations (C24's non-triviality rule); relaxed, never read by the solver
+inline std::atomic<unsigned long> & bignumAllocs() {
+    static std::atomic<unsigned long> c{0};
+    return c;
+}
+
+} // namespace opensmt::verif
+
+#endif // OPENSMT_VERIF_HOOKS
+#endif // OPENSMT_VERIFHOOKS_H
